@@ -147,6 +147,11 @@ fn vary(kind: Kind, s: &str, vs: &[gen::Variant]) -> String {
 	cur
 }
 
+/// Public wrapper around `vary`.
+pub fn vary_pub(kind: Kind, s: &str, vs: &[gen::Variant]) -> String {
+	vary(kind, s, vs)
+}
+
 /// Triples (a, b, c): b and c are chains of variants of a (70 %), or
 /// independent values of the same kind (30 %).
 pub fn triple(nonutf8: bool) -> BoxedStrategy<Triple> {
